@@ -175,7 +175,7 @@ fn check_step<const N: usize>(g: &mut ManiaGradualDifficulty, w: &Witness<N>, m:
         let k = p + n + 1; // number of objects the returned value accounts for
         assert!(res.is_some(), "C15,C02 mania: a value is produced while enough values remain");
         let a = res.unwrap();
-        assert!(a.n_objects as usize == k, "C02 mania: n_objects is the prefix length");
+        assert!(a.n_objects as usize == k, "C02,C15 mania: n_objects is the prefix length");
         let rate_is_one = w.rate_k == 4 || w.rate_k == 0;
         let mut hold_in_prefix = false;
         for i in 0..N {
@@ -185,19 +185,19 @@ fn check_step<const N: usize>(g: &mut ManiaGradualDifficulty, w: &Witness<N>, m:
         }
         let combo_known_class = !rate_is_one && hold_in_prefix;
         if !(skip & SKIP_COMBO_RATE != 0 && combo_known_class) {
-            assert!(a.max_combo == m.combo[k], "C02 mania: max_combo equals the one-shot count of the prefix");
+            assert!(a.max_combo == m.combo[k], "C02,C15 mania: max_combo equals the one-shot count of the prefix");
         }
-        assert!(a.n_hold_notes == m.holds[k], "C02 mania: n_hold_notes equals the one-shot count of the prefix");
+        assert!(a.n_hold_notes == m.holds[k], "C02,C15 mania: n_hold_notes equals the one-shot count of the prefix");
         assert!(g.idx == k, "C15 mania: cursor advanced by n + 1");
         assert!(g.len() == N - k, "C15 mania: len() after the call");
         if ghost {
             // processed exactly the difficulty objects of objects max(p,1) ..= k-1, once, in order
             let first = if p == 0 { 0 } else { p - 1 };
             let expect = (k - 1) - first;
-            assert!(log_len() - log0 == expect, "C02 mania: number of processed difficulty objects");
+            assert!(log_len() - log0 == expect, "C02,C15 mania: number of processed difficulty objects");
             let mut j = 0;
             while j < expect {
-                assert!(log_at(log0 + j) == first + j, "C02 mania: processed objects in order");
+                assert!(log_at(log0 + j) == first + j, "C02,C15 mania: processed objects in order");
                 j += 1;
             }
         } else {
@@ -206,11 +206,11 @@ fn check_step<const N: usize>(g: &mut ManiaGradualDifficulty, w: &Witness<N>, m:
                 .passed_objects(k as u32)
                 .calculate_for_mode::<Mania>(map)
                 .unwrap();
-            assert!(one.n_objects == a.n_objects, "C02 mania: n_objects equals one-shot passed_objects(i)");
+            assert!(one.n_objects == a.n_objects, "C02,C15 mania: n_objects equals one-shot passed_objects(i)");
             if !(skip & SKIP_COMBO_RATE != 0 && combo_known_class) {
-                assert!(one.max_combo == a.max_combo, "C02 mania: max_combo equals one-shot passed_objects(i)");
+                assert!(one.max_combo == a.max_combo, "C02,C15 mania: max_combo equals one-shot passed_objects(i)");
             }
-            assert!(one.n_hold_notes == a.n_hold_notes, "C02 mania: n_hold_notes equals one-shot passed_objects(i)");
+            assert!(one.n_hold_notes == a.n_hold_notes, "C02,C15 mania: n_hold_notes equals one-shot passed_objects(i)");
         }
     } else {
         if !(skip & SKIP_NTH_BEYOND != 0 && remaining > 0) {
@@ -287,6 +287,7 @@ fn restrict_to_class<const N: usize>(w: &Witness<N>, class: u8) {
                 kani::assume(!w.is_circle[i]);
             }
         }
+        4 => kani::assume(w.call == 1 && w.p >= 1 && w.n >= 1 && w.n < N - w.p),
         _ => {}
     }
 }
@@ -337,9 +338,75 @@ c03_proof!(c03_mania_pgradual_n3, 3, 2, 10);
 
 // known findings, re-derived on every run (must fail exactly the listed assertion)
 s1_proof!(kf_mania_nth_beyond_end, 2, 1, 6, 0, 1);
+s1_proof!(s1_mania_nth_inside_n3, 3, 2, 7, SKIP_NTH_BEYOND | SKIP_COMBO_RATE, 4);
 s1_proof!(kf_mania_combo_clock_rate, 2, 1, 6, SKIP_NTH_BEYOND, 2);
 
+// ---- S2: the constructor side ------------------------------------------------------------------
+// The S1 literal assumes the state `new()` establishes; here the real
+// `ManiaGradualDifficulty::new()` runs on concrete tiny kind patterns (symbolic times / hold
+// durations) and every value is compared with the one-shot counters of the prefix, which ties the
+// S1 pre-states to what the constructor really builds (first object counted in `new()`!).
+
+fn cut_contains_intermode<M>(_m: &rosu_mods::GameMods, _g: M) -> bool
+where
+    rosu_mods::GameModIntermode: From<M>,
+{
+    kani::assume(false);
+    false
+}
+
+/// PATTERN bit i set => object i is a circle
+fn s2_new<const N: usize, const PATTERN: u8>() {
+    let mut w = any_witness::<N>();
+    for i in 0..N {
+        kani::assume(w.is_circle[i] == (PATTERN & (1 << i) != 0));
+    }
+    kani::assume(w.rate_k == 4 || w.rate_k == 0);
+    w.p = 0;
+    let map = map_of(&w);
+    let (m, objs) = model_and_objects::<N>(&map);
+    let mut g = ManiaGradualDifficulty::new(difficulty_of(&w), &map).unwrap();
+    assert!(g.len() == N, "C15,C02 mania: new() announces one value per object");
+    for k in 1..=N {
+        let a = g.next();
+        assert!(a.is_some(), "C15,C02 mania: a value is produced while enough values remain");
+        let a = a.unwrap();
+        assert!(a.n_objects as usize == k, "C02,C15 mania: n_objects is the prefix length");
+        assert!(a.max_combo == m.combo[k], "C02,C15 mania: max_combo equals the one-shot count of the prefix");
+        assert!(a.n_hold_notes == m.holds[k], "C02,C15 mania: n_hold_notes equals the one-shot count of the prefix");
+        if !ghost_probe() {
+            let one = difficulty_of(&w).passed_objects(k as u32).calculate_for_mode::<Mania>(&map).unwrap();
+            assert!(one.max_combo == a.max_combo && one.n_hold_notes == a.n_hold_notes && one.n_objects == a.n_objects,
+                "C02,C15 mania: counters equal one-shot passed_objects(i)");
+        }
+    }
+    assert!(g.next().is_none(), "C15 mania: exhausted calculator stays exhausted");
+    kani::cover!(N > 0 && w.dur_k[0] == 1, "first object with a 200 ms duration entry");
+    kani::cover!(true, "end reached");
+    core::mem::forget((g, map, objs));
+}
+
+macro_rules! s2_proof {
+    ($name:ident, $n:literal, $pat:literal, $unwind:literal) => {
+        #[kani::proof]
+        #[kani::unwind($unwind)]
+        #[kani::stub(<Strain as StrainSkill>::process, rec_process)]
+        #[kani::stub(<Strain as StrainSkill>::cloned_difficulty_value, zero_value)]
+        #[kani::stub(crate::model::hit_object::Slider::curve, cut_curve)]
+        #[kani::stub(crate::verif_harness::common::ghost_probe, crate::verif_harness::common::ghost_probe_on)]
+        pub fn $name() {
+            s2_new::<$n, $pat>();
+        }
+    };
+}
+
+s2_proof!(s2_mania_new_single_hold, 1, 0b0, 6);
+s2_proof!(s2_mania_new_hold_circle, 2, 0b10, 6);
+s2_proof!(s2_mania_new_circle_hold, 2, 0b01, 6);
+
 verif_replay_table!(verif_replay_mania_gradual;
+    s2_mania_new_single_hold, s2_mania_new_hold_circle, s2_mania_new_circle_hold,
+    s1_mania_nth_inside_n3,
     c03_mania_pgradual_n0, c03_mania_pgradual_n1, c03_mania_pgradual_n2, c03_mania_pgradual_n3,
     kf_mania_nth_beyond_end, kf_mania_combo_clock_rate,
     s1_mania_step_n0, s1_mania_step_n1, s1_mania_step_n2, s1_mania_step_n3, s1_mania_step_n4,
